@@ -27,3 +27,32 @@ Definition agrees (c : cmp) (k : mhcase) : bool :=
   && Bool.eqb (accept o2) (i_moved k)
   && Nat.eqb (mh_select o2 1%nat 0%nat) (i_x k)
   && i_aux k.
+
+(* ---- kernel level (RWKernel / MHKernel / IWLSKernel transitions), model Goose/MHKernel.v ---- *)
+From LV Require Import Goose.MHKernel.
+
+Record kcase := mkKCase {
+  kc_kind : kernel_kind;
+  kc_g : kingr;           (* ingredients computed by the harness independently of the kernel *)
+  kc_e : xnum;            (* jnp.exp of the float32 log ratio (oracle) *)
+  ki_code : nat; ki_p : xnum; ki_moved : bool;   (* the kernel's transition info *)
+  ki_sel : nat;           (* returned model state: 0 = input (bit-equal), 1 = proposed, 2 = neither *)
+  ki_ks : bool            (* returned kernel state equals the one passed in *)
+}.
+
+(* the kernel's ingredients go through separately compiled XLA programs: |a - b| <= 2^-12 * max(|b|, 2^-100) *)
+Definition xclose_k (a b : xnum) : bool :=
+  match a, b with
+  | XFin p, XFin q => Qle_bool (Qabs (p - q)) ((1 # 4096) * (Qabs q + (1 # 1267650600228229401496703205376)))
+  | _, _ => xeqb a b
+  end.
+
+Definition kagrees (c : cmp) (k : kcase) : bool :=
+  let r1 := kernel_transition (fun _ => kc_e k) Forward c (kc_kind k) (kc_g k) true 1%nat 0%nat in
+  let r2 := kernel_transition (fun _ => ki_p k) Forward c (kc_kind k) (kc_g k) true 1%nat 0%nat in
+  Nat.eqb (code (ko_info r1)) (ki_code k)
+  && xclose_k (prob (ko_info r1)) (ki_p k)
+  && xeqb (prob (ko_info r2)) (ki_p k)
+  && Bool.eqb (accept (ko_info r2)) (ki_moved k)
+  && Nat.eqb (ko_mstate r2) (ki_sel k)
+  && ko_kstate r2 && ki_ks k.
